@@ -25,7 +25,7 @@ GroupProgramsC17(g) ==
   CASE g[1] = "re" -> { C("regexp", <<S(sub), S(ReRender(g[2]))>>) : sub \in Subjects }
     [] g[1] = "pair" ->
          { C(f, <<S(g[2]), S(t)>>) : f \in {"startWith", "endWith", "contains", "find"}, t \in Strs2 }
-         \cup { C("replace", <<S(g[2]), S(o), S(n)>>) : o \in {<<>>, <<97>>, <<98>>, <<97,98>>, <<97,97>>, <<195,169>>}, n \in {<<>>, <<120>>, <<97,97>>} }
+         \cup { C("replace", <<S(g[2]), S(o), S(n)>>) : o \in {<<>>, <<97>>, <<98>>, <<97,98>>, <<97,97>>, <<195,169>>}, n \in {<<>>, <<120>>, <<97,97>>, <<36,49>>, <<36,36>>, <<36,123,120,125>>, <<92,49>>} }
     [] g[1] = "pos" ->
          { C(f, <<S(g[2]), I(n)>>) : f \in {"left", "right"}, n \in Ints }
          \cup { C("mid", <<S(g[2]), I(i), I(j)>>) : i \in Ints, j \in Ints }
